@@ -3,7 +3,7 @@
    either side / left blank when zero, text fields with leading blanks, blank timecodes, arbitrary spare bytes) and a list
    of blocks (Proofs/StlReadDoc.v: user-data blocks anywhere; subtitle blocks with arbitrary number / status / flag /
    timecode / position / justification bytes and a text field of open-subtitling rows - display standard 0 - or of
-   teletext rows - any other display standard code).  [render_stl] gives the bytes, [denote_stl] the meaning; the reader
+   teletext rows, each with its start box written or omitted - any other display standard code).  [render_stl] gives the bytes, [denote_stl] the meaning; the reader
    returns the meaning for every rendering that passes the decidable check, for both values of the option. *)
 From Coq Require Import List ZArith NArith Bool Lia.
 From Astisub Require Import Kit.Base Kit.Str Kit.Scan Model.Dur Model.Stl Model.TtxRow Model.TtxRowStl Gen.StlTables
@@ -89,9 +89,9 @@ Local Close Scope Z_scope.
    groups and text cells, end box, a second row without end box ---- *)
 Definition y_g : gsi :=
   mkGsi stl_c_cctLatin 3683632 [] [] 1 [49]%N [] [] 25 [] 40 23 [] [] [] [] 0 [] 0 0 [49]%N 1 1 1 1 [] [] [] [] [].
-Definition y_rows : list srow :=
-  [ mkSrow [6; 13] [mkSseg [] [11; 72; 105; 32]; mkSseg [128; 3] [194; 101]; mkSseg [129] [32; 33]] (Some [10; 32]);
-    mkSrow [] [mkSseg [] ([79; 107] ++ repeat 143 91)] None ]%N.
+Definition y_rows : list brow :=
+  [ mkBrow true (mkSrow [6; 13] [mkSseg [] [11; 72; 105; 32]; mkSseg [128; 3] [194; 101]; mkSseg [129] [32; 33]] (Some [10; 32]));
+    mkBrow true (mkSrow [] [mkSseg [] ([79; 107] ++ repeat 143 91)] None) ]%N.
 Definition y_blocks : list rblock := [ BCue (mkRcue 0 1 0 255 0  0 0 1 0  0 0 2 12  22 1 0 (TTtx y_rows)) ].
 Example y_ok : rendering_okb writer_forms y_g y_blocks = true.
 Proof. vm_compute. reflexivity. Qed.
@@ -105,6 +105,41 @@ Example y_denotes :
            ((b [33], false, false, false), Some 3%N, Some true) ];
          [ ((b [79;107], false, false, false), None, None) ] ]) ]%Z.
 Proof. vm_compute. reflexivity. Qed.
+
+Local Close Scope Z_scope.
+(* ---- the same with the start box omitted, as the library's own writer leaves it (display standard 2): row 1 without
+   start box: italics on, "Hi", italics off and colour 7, " " + acute + "e", end box, a blank; row 2 with its start box
+   and a colour in front of it; row 3 without start box, padded.  The reader reads a row without any start box as if one
+   stood in front of it ---- *)
+Definition z_g : gsi :=
+  mkGsi stl_c_cctLatin 3683632 [] [] 1 [50]%N [] [] 25 [] 40 23 [] [] [] [] 0 [] 0 0 [49]%N 1 1 1 1 [] [] [] [] [].
+Definition z_rows : list brow :=
+  [ mkBrow false (mkSrow [] [mkSseg [128] [72; 105]; mkSseg [129; 7] [32; 194; 101]] (Some [32]));
+    mkBrow true (mkSrow [2] [mkSseg [] [79; 107]] None);
+    mkBrow false (mkSrow [] [mkSseg [] ([33] ++ repeat 143 95)] None) ]%N.
+Definition z_blocks : list rblock := [ BCue (mkRcue 0 1 0 255 0  0 0 1 0  0 0 2 12  22 1 0 (TTtx z_rows)) ].
+Example z_ok : rendering_okb writer_forms z_g z_blocks = true.
+Proof. vm_compute. reflexivity. Qed.
+Example z_read : forall ign, read_stl ign (render_stl writer_forms z_g z_blocks) = Ok (denote_stl ign z_g z_blocks).
+Proof. intros ign. apply read_rendered_stl. exact z_ok. Qed.
+(* no byte 0x0B in the first and third row of the text field *)
+Example z_field : firstn 20 (text_bytes (TTtx z_rows)) = [128; 72; 105; 129; 7; 32; 194; 101; 10; 32; 138; 2; 11; 79; 107; 138; 33; 143; 143; 143]%N.
+Proof. vm_compute. reflexivity. Qed.
+Local Open Scope Z_scope.
+Example z_denotes :
+  map (fun it => (ri_st it, ri_en it, map (map (fun x => (run_flags x, a_col (ru_at x), ru_sb x, ru_sa x))) (ri_lines it))) (rd_items (denote_stl false z_g z_blocks)) =
+  [ (1000000000, 2480000000,
+       [ [ ((b [72;105], true, false, false), None, Some 0%N, Some 0%N); ((b [195;169], false, false, false), Some 7%N, Some 1%N, Some 0%N) ];
+         [ ((b [79;107], false, false, false), Some 2%N, Some 0%N, Some 0%N) ];
+         [ ((b [33], false, false, false), None, Some 0%N, Some 0%N) ] ]) ]%Z.
+Proof. vm_compute. reflexivity. Qed.
+(* the start box may be omitted only when nothing stands in front of it (the cells of a box-less row are those after the
+   box) and no other cell is a start box (the reader puts one in front only of a row that has none): the check refuses
+   both *)
+Example z_needs_no_pre :
+  trow_okb (mkBrow false (mkSrow [2]%N [mkSseg [] [79; 107]%N] None)) = false /\
+  trow_okb (mkBrow false (mkSrow [] [mkSseg [] [79; 11; 107]%N] None)) = false.
+Proof. vm_compute. split; reflexivity. Qed.
 
 Local Close Scope Z_scope.
 (* ================= side conditions the proof forced, shown necessary on computed instances ================= *)
